@@ -174,3 +174,4 @@ def run(ctx):
     for kind in XC.KINDS if hasattr(XC, "KINDS") else ("point", "interval", "float_slice", "grad_slice"):
         ctx.guarded(r, XC.check_int_compare, kind)
         ctx.guarded(r, XS64_.check_mask_logic, kind)
+    ctx.include('C02', 'every choice op of the tape must reach the clause that records its choice', only=('R1',))
